@@ -635,6 +635,8 @@ impl TableNamespace {
     }
 
     fn set_dirty(&mut self, transaction: &WriteTransaction) {
+        #[cfg(redb_verif)]
+        crate::verif_types::pause("set_dirty");
         transaction.dirty.store(true, Ordering::Release);
         if !transaction.transaction_tracker.any_savepoint_exists() {
             // No savepoints exist, and we don't allow savepoints to be created in a dirty transaction
@@ -1282,11 +1284,15 @@ impl WriteTransaction {
         // allocation tracking -- leaving a live savepoint with tracking `Ignore`d. A later
         // `restore_savepoint()` would then fail to free this transaction's pages, leaking them
         // (reclaimed only by a full repair).
+        #[cfg(redb_verif)]
+        crate::verif_types::pause("ephemeral_savepoint.enter");
         let (id, transaction_id) = {
             let _tables = self.tables.lock().unwrap();
             if self.dirty.load(Ordering::Acquire) {
                 return Err(SavepointError::InvalidSavepoint);
             }
+            #[cfg(redb_verif)]
+            crate::verif_types::pause("ephemeral_savepoint.checked");
             self.allocate_savepoint()?
         };
         #[cfg(feature = "logging")]
@@ -1983,7 +1989,11 @@ impl WriteTransaction {
             .transaction_tracker
             .oldest_live_read_transaction()
             .map_or(self.transaction_id, |x| x.next());
+        #[cfg(redb_verif)]
+        crate::verif_types::pause("durable.horizon");
         self.process_freed_pages(free_until_transaction)?;
+        #[cfg(redb_verif)]
+        crate::verif_types::pause("durable.freed");
         // Flush allocated pages (including previously unpersisted allocations that are now
         // becoming durable) AFTER process_freed_pages, so that any pages reclaimed here have
         // already been dropped from the in-memory `unpersisted_allocations` map.
@@ -2040,6 +2050,8 @@ impl WriteTransaction {
         };
 
         let page_allocator = self.page_allocator();
+        #[cfg(redb_verif)]
+        crate::verif_types::pause("durable.before_commit");
         self.mem.commit(
             user_root,
             system_root,
@@ -2047,6 +2059,8 @@ impl WriteTransaction {
             self.two_phase_commit,
             self.shrink_policy,
         )?;
+        #[cfg(redb_verif)]
+        crate::verif_types::pause("durable.after_commit");
         // All of this transaction's allocations are durable; discard the per-txn tracker.
         let _ = page_allocator.take_allocated_since_commit();
 
@@ -2062,6 +2076,8 @@ impl WriteTransaction {
         drop(system_tables);
 
         self.apply_savepoint_state_on_commit();
+        #[cfg(redb_verif)]
+        crate::verif_types::pause("durable.before_epilogue");
 
         if self.post_commit_free == PostCommitFree::Enabled {
             self.process_data_freed_pages_after_commit(
@@ -2095,6 +2111,8 @@ impl WriteTransaction {
         if savepoint_horizon != u64::MAX {
             free_until = free_until.min(TransactionId::new(savepoint_horizon).next());
         }
+        #[cfg(redb_verif)]
+        crate::verif_types::pause("epilogue.horizon");
 
         let mut freed_any = false;
         let (system_root, stored_system_freed_pages, extracted_data_transactions) = {
@@ -2167,6 +2185,8 @@ impl WriteTransaction {
             .transaction_tracker
             .oldest_live_read_nondurable_transaction()
             .map_or(self.transaction_id, |x| x.next());
+        #[cfg(redb_verif)]
+        crate::verif_types::pause("nondurable.horizon");
         self.process_freed_pages_nondurable(free_until_transaction)?;
 
         let mut post_commit_frees = vec![];
@@ -2199,12 +2219,16 @@ impl WriteTransaction {
         };
 
         let newly_unpersisted = self.page_allocator().take_allocated_since_commit();
+        #[cfg(redb_verif)]
+        crate::verif_types::pause("nondurable.before_publish");
         self.mem.non_durable_commit(
             user_root,
             system_root,
             self.transaction_id,
             newly_unpersisted,
         )?;
+        #[cfg(redb_verif)]
+        crate::verif_types::pause("nondurable.after_publish");
         // Record the data-tree pages allocated in this transaction in the in-memory map.
         self.mem
             .record_unpersisted_allocations(self.transaction_id, allocated_pages);
@@ -2611,6 +2635,8 @@ impl WriteTransaction {
 
 impl Drop for WriteTransaction {
     fn drop(&mut self) {
+        #[cfg(redb_verif)]
+        crate::verif_types::pause("write.drop");
         if !self.completed && !crate::panicking() && !self.mem.storage_failure() {
             #[allow(unused_variables)]
             if let Err(error) = self.abort_inner() {
